@@ -1232,7 +1232,10 @@ def run_c17(tier, seed, t0, replay_item=None):
             names, pool = conc.names(rng, ["a", "b", "c", "d"], pool)
             items.append({"id": "C17-%d-%d" % (seed, i), "rs": rng.choice(conc.RECORD_SIZES), "format": fmt, "shape": shape,
                           "members": foreign_tree(rng, rng.choice([1, 2, 3] if tier == "quick" else [1, 2, 3, 4]), rng.choice([1, 2, 3] if tier == "quick" else [2, 3, 4])), "names": names,
-                          "seed": rng.randrange(1 << 30), "spellings": ["abs", "rel", "dot"], "pool": pool})
+                          "seed": rng.randrange(1 << 30), "spellings": ["abs", "rel", "dot"], "pool": pool,
+                          # zero padding behind the end-of-archive marker as blocking tar writers leave it (GNU tar: to 20 blocks),
+                          # and whether the first call after opening removes an original member (first appended record = action record)
+                          "pad": rng.choice([0, 0, -1, -1, 1, 2, 3, 4, 6, 8, 13]), "removefirst": rng.random() < 0.4})
     res, crashed = core.run_batches(runner, "foreign", items, per_batch=4, timeout=3000)
     by_id = {it["id"]: it for it in items}
     done, checks_n, infra, kinds, samples = 0, 0, [], set(), []
